@@ -7,9 +7,12 @@
    checks/c02_elide.py): the emitted bounds check (Engine/Bounds.v), lowerToAddressMode (Engine/Amode.v, compared
    with the real function on enumerated and random SSA trees) and the known-safe-bounds cache as a dataflow
    analysis over control-flow graphs (Engine/Elide.v, compared with the real cache while the real frontend lowers
-   generated functions). Proved here: *)
+   generated functions). A fourth stream (checks/c02_guard.py, harness/c02/guard*.go) runs ACCESS programs of every
+   instruction family (plain, SIMD, atomic, bulk; loads feeding every kind of consumer directly) at the end of
+   memories that are followed by an inaccessible page, in child processes, and compares every call with the
+   byte-level model Engine/Access.v (theorems at the end of this file). Proved here: *)
 From Coq Require Import ZArith List Bool.
-From Verif Require Import Lib.GoInt Gen.GenWasm Engine.Bounds Engine.Amode Engine.Elide Wasm.Numerics Wasm.Sem Proofs.BoundsP Proofs.AmodeP Proofs.ElideP Proofs.SemP.
+From Verif Require Import Lib.GoInt Gen.GenWasm Engine.Bounds Engine.Amode Engine.Elide Engine.Access Wasm.Numerics Wasm.Sem Proofs.BoundsP Proofs.AmodeP Proofs.ElideP Proofs.SemP Proofs.AccessP.
 Import ListNotations.
 Open Scope Z_scope.
 
@@ -120,3 +123,109 @@ Theorem C02_trap_leaves_memory_unchanged : forall D host listened maxdepth fuel 
   exec D host listened maxdepth (S fuel) depth ii s f (i :: rest) = Trap t s.
 Proof. exact trap_keeps_store. Qed.
 Print Assumptions C02_trap_leaves_memory_unchanged.
+
+(* ================= the byte-level model of every kind of access (Engine/Access.v) =================
+   `whole m` is a linear memory whose bytes are the list m (size = its length); `run` executes one access:
+   OTrap, or ODone with the new memory and the bytes read. nthZ l i = nth (Z.to_nat i) l 0. *)
+
+(* the model's bounds predicate on the 33-bit effective address is exactly the test each engine emits *)
+Theorem C02_access_ok_is_the_engines_check : forall memLen base off size,
+  0 <= memLen <= 2 ^ 32 -> 0 <= base < 2 ^ 32 -> 0 <= off < 2 ^ 32 -> 0 < size <= 16 ->
+  compiler_pass memLen base off size = access_ok memLen (eff_addr base off) size /\
+  interp_pass memLen base off size = access_ok memLen (eff_addr base off) size.
+Proof. exact access_ok_is_the_engines_check. Qed.
+Print Assumptions C02_access_ok_is_the_engines_check.
+
+(* every load (plain, extending, v128, splat, zero, lane): in bounds -> exactly the n addressed bytes, memory as it
+   was; out of bounds -> trap, memory unchanged *)
+Theorem C02_load_bytes_exact : forall m ea n,
+  (0 <= ea -> 0 <= n -> ea + n <= zlen m ->
+     exists bs, run (whole m) (ALoad ea n) = ODone (whole m) bs /\ length bs = Z.to_nat n /\
+                forall k, 0 <= k < n -> nth (Z.to_nat k) bs 0 = nth (Z.to_nat (ea + k)) m 0) /\
+  (0 <= ea -> 0 <= n -> zlen m < ea + n ->
+     run (whole m) (ALoad ea n) = OTrap AOob /\ mem_after (whole m) (ALoad ea n) = whole m).
+Proof. exact load_bytes_exact. Qed.
+Print Assumptions C02_load_bytes_exact.
+
+(* (a) every store (plain, v128, lane) of any number of bytes: in bounds -> exactly [ea, ea+n) changes, the length
+   stays; out of bounds -> trap, memory unchanged *)
+Theorem C02_store_bytes_exact : forall m ea bs,
+  (0 <= ea -> ea + zlen bs <= zlen m ->
+     exists m', run (whole m) (AStore ea bs) = ODone (whole m') [] /\ length m' = length m /\
+                forall x, 0 <= x -> nth (Z.to_nat x) m' 0 =
+                  if (ea <=? x) && (x <? ea + zlen bs) then nth (Z.to_nat (x - ea)) bs 0 else nth (Z.to_nat x) m 0) /\
+  (0 <= ea -> zlen m < ea + zlen bs ->
+     run (whole m) (AStore ea bs) = OTrap AOob /\ mem_after (whole m) (AStore ea bs) = whole m).
+Proof. exact store_bytes_exact. Qed.
+Print Assumptions C02_store_bytes_exact.
+
+(* (b) memory.fill / memory.copy / memory.init for ALL destinations, sources, lengths and memories: out of bounds
+   (destination or source) -> trap and no byte written (no partial write); in bounds -> exactly the destination
+   range changes and receives the source bytes as they were before the instruction (overlapping copies in both
+   directions) *)
+Theorem C02_bulk_trap_leaves_memory :
+  (forall m d v n,
+    (0 <= d -> 0 <= n -> d + n <= zlen m ->
+       exists m', run (whole m) (AFill d v n) = ODone (whole m') [] /\ length m' = length m /\
+                  forall x, 0 <= x -> nth (Z.to_nat x) m' 0 = if (d <=? x) && (x <? d + n) then v mod 256 else nth (Z.to_nat x) m 0) /\
+    (0 <= d -> 0 <= n -> zlen m < d + n ->
+       run (whole m) (AFill d v n) = OTrap AOob /\ mem_after (whole m) (AFill d v n) = whole m)) /\
+  (forall m d s n,
+    (0 <= d -> 0 <= s -> 0 <= n -> d + n <= zlen m -> s + n <= zlen m ->
+       exists m', run (whole m) (ACopy d s n) = ODone (whole m') [] /\ length m' = length m /\
+                  forall x, 0 <= x -> nth (Z.to_nat x) m' 0 =
+                    if (d <=? x) && (x <? d + n) then nth (Z.to_nat (s + (x - d))) m 0 else nth (Z.to_nat x) m 0) /\
+    (0 <= d -> 0 <= s -> 0 <= n -> zlen m < d + n \/ zlen m < s + n ->
+       run (whole m) (ACopy d s n) = OTrap AOob /\ mem_after (whole m) (ACopy d s n) = whole m)) /\
+  (forall m seg d s n,
+    (0 <= d -> 0 <= s -> 0 <= n -> d + n <= zlen m -> s + n <= zlen seg ->
+       exists m', run (whole m) (AInit seg d s n) = ODone (whole m') [] /\ length m' = length m /\
+                  forall x, 0 <= x -> nth (Z.to_nat x) m' 0 =
+                    if (d <=? x) && (x <? d + n) then nth (Z.to_nat (s + (x - d))) seg 0 else nth (Z.to_nat x) m 0) /\
+    (0 <= d -> 0 <= s -> 0 <= n -> zlen m < d + n \/ zlen seg < s + n ->
+       run (whole m) (AInit seg d s n) = OTrap AOob /\ mem_after (whole m) (AInit seg d s n) = whole m)).
+Proof. exact bulk_exact. Qed.
+Print Assumptions C02_bulk_trap_leaves_memory.
+
+(* (c) whatever the access (any family), the memory and the window: every byte index the model reads or writes
+   lies in [0, size) *)
+Theorem C02_access_never_outside : forall m a x, In x (touched m a) -> 0 <= x < v_size m.
+Proof. exact access_never_outside. Qed.
+Print Assumptions C02_access_never_outside.
+
+(* (d) atomics: a misaligned effective address traps (whatever the bounds), nothing is touched, memory unchanged;
+   an aligned atomic load/store is the plain one; an aligned in-bounds read-modify-write returns the old bytes and
+   rewrites exactly its n bytes *)
+Theorem C02_atomic_misaligned_traps : forall m a ea n,
+  atomic_ea_width a = Some (ea, n) -> ea mod n <> 0 ->
+  (run m a = OTrap AUnaligned \/ run m a = OTrap AEither) /\ mem_after m a = m /\ touched m a = [].
+Proof. exact atomic_misaligned_traps. Qed.
+Print Assumptions C02_atomic_misaligned_traps.
+
+Theorem C02_atomic_aligned_as_plain : forall m ea n bs,
+  (ea mod n = 0 -> run m (AAtomLoad ea n) = run m (ALoad ea n)) /\
+  (ea mod zlen bs = 0 -> run m (AAtomStore ea bs) = run m (AStore ea bs)).
+Proof. exact atomic_aligned_as_plain. Qed.
+Print Assumptions C02_atomic_aligned_as_plain.
+
+Theorem C02_rmw_exact : forall m op ea n v,
+  0 <= ea -> 0 < n -> ea mod n = 0 -> ea + n <= zlen m ->
+  exists m', run (whole m) (ARmw op ea n v) = ODone (whole m') (sub m ea n) /\ length m' = length m /\
+             (forall x, 0 <= x -> ~ (ea <= x < ea + n) -> nth (Z.to_nat x) m' 0 = nth (Z.to_nat x) m 0) /\
+             sub m' ea n = le_bytes (Z.to_nat n) (rmw_new op n (le_val (sub m ea n)) v).
+Proof. exact rmw_exact. Qed.
+Print Assumptions C02_rmw_exact.
+
+(* the correspondence run evaluates the model on a WINDOW of the memory (the bytes around the addressed locations):
+   for every access, a window that covers it gives the outcome of the whole memory pre ++ w ++ post, and the new
+   memory differs from the old one only inside the window *)
+Theorem C02_window_sound : forall pre w post a,
+  let m := pre ++ w ++ post in
+  let vm := {| v_size := zlen m; v_lo := zlen pre; v_win := w |} in
+  match run vm a with
+  | OTrap t => run (whole m) a = OTrap t
+  | ODone vm' r => run (whole m) a = ODone (whole (pre ++ v_win vm' ++ post)) r /\ length (v_win vm') = length w
+  | OWindow => True
+  end.
+Proof. exact run_window. Qed.
+Print Assumptions C02_window_sound.
